@@ -2,11 +2,12 @@
 # Model of the single-file external-data save (property C08)
 
 Transcribes `_write_external_data` and the serial `_ExternalDataWriter._write_serial`
-(`src/onnx_ir/external_data.py` 453-509 and 576-589), the sharded pre-flight
+(`src/onnx_ir/external_data.py` 453-513 and 580-593), the sharded pre-flight
 (`_check_no_existing_shard_files` 289-315, called at 836-839, followed by the per-shard saves
 900-914) and the "load small external tensors first" step of `unload_from_model` (1058-1064).
 (Line numbers: /repo after `fix:` 44c0eb3, which moved the collection of the overwritten tensors
-in front of `mkdtemp`.)
+in front of `mkdtemp`; `fix:` 43b6cd9 added four lines to the invalidation loop, so everything
+below line 503 is four lines further down than cited.)
 
 The file system is `path -> inode -> (bytes, mode)`.  Paths are either names the caller can
 spell (`Path.user`) or the two paths created by `tempfile.mkdtemp` (`tmpDir`) and the file inside
@@ -107,7 +108,7 @@ inductive Eff where
   | removeTmp
   /-- `os.rmdir(temporary_dir)` under `suppress(FileNotFoundError)` 500-501 -/
   | rmdirTmp
-  /-- `tensor.invalidate()` 503-504 -/
+  /-- `tensor.invalidate()` 503-508 (only for tensors whose path still refers to the destination) -/
   | invalidate (i : Nat)
   /-- `tensor.numpy().copy()` of a small external tensor, 271 (via 1063-1065): `numpy()` maps the
   file if it is not mapped yet (`_core.py` 890-899, 817-831), the copy is kept in memory -/
@@ -220,7 +221,7 @@ def runList (env : Env) (f : Nat → Option Nat) : List Eff → Nat → St → R
       ⟨⟨e, false, apply env s e⟩ :: r.steps, r.final, r.faulted⟩
 
 /-- `_write_external_data` 453-509 with an abstract `body` (what `writer.write()` and the release
-loop do, 474-495) and `post` (the invalidation loop 503-509): `mkdtemp` is outside the `try`;
+loop do, 474-495) and `post` (the invalidation loop 503-513): `mkdtemp` is outside the `try`;
 `body` and `os.replace` are inside; the `finally` runs `os.remove` then `os.rmdir` (a failing
 `remove` skips `rmdir`); `post` runs only if nothing raised. `faulted` = an exception leaves the
 function. -/
@@ -271,7 +272,23 @@ def tryBody (cfg : Cfg) (s0 : St) : List Eff :=
     ++ (overwritten cfg s0).map .release
     ++ (if (s0.fs.file (.user cfg.env.dest)).isSome then [.copymode] else [])
 
-def postEffs (cfg : Cfg) (s0 : St) : List Eff := (overwritten cfg s0).map .invalidate
+/-- The tensors the invalidation loop 503-511 invalidates (after `fix:` 43b6cd9): the collected
+tensors for which `_paths_refer_to_same_file(tensor.path, destination_path)` still holds *after*
+the replace. At that point the destination names the fresh inode and every other name keeps the
+inode it had, so the test holds exactly for the collected tensors whose (resolved) path is the
+destination name — not for other hard links of the old inode (`Props/C08.lean`
+`C08_post_samefile` proves this reading of the dynamic test). -/
+def invalidatedFrom (fs : FS) (dest : String) : Nat → List Tensor → List Nat
+  | _, [] => []
+  | i, t :: ts =>
+    (match t.ext with
+      | some e => if sameFile fs (.user e.path) (.user dest) && e.path == dest then [i] else []
+      | none => []) ++ invalidatedFrom fs dest (i + 1) ts
+
+def invalidated (cfg : Cfg) (s0 : St) : List Nat :=
+  invalidatedFrom s0.fs cfg.env.dest 0 cfg.tensors
+
+def postEffs (cfg : Cfg) (s0 : St) : List Eff := (invalidated cfg s0).map .invalidate
 
 /-- The serial single-file save. -/
 def save (cfg : Cfg) (f : Nat → Option Nat) (n0 : Nat) (s0 : St) : Res :=
